@@ -13,6 +13,7 @@ Stages
 """
 import copy
 import json
+import logging
 import math
 import random
 import shutil
@@ -68,6 +69,64 @@ def parallel_defect(psi, g):
 # ------------------------------------------------------------------------------------------------
 # LanczosGroundState (+ wrappers, lanczos_arpack)
 # ------------------------------------------------------------------------------------------------
+class ListOp:
+    """block-diagonal operator acting on list-valued vectors [x1, x2] (KrylovBased accepts lists of npc Arrays)"""
+
+    def __init__(self, ops):
+        self.ops = ops
+
+    def matvec(self, vec):
+        return [o.matvec(x) for o, x in zip(self.ops, vec)]
+
+
+def lanczos_listvec(rep, B, ovs, sigma, Aeff, gvec, tol):
+    """the same planted case with the vector given as a list of two arrays (first block | the other blocks)"""
+    from tenpy.linalg import krylov_based as kb, sparse
+    case = rep.case
+    n1 = case['blocks'][0]['n']
+    parts = []
+    for sl in (slice(0, 1), slice(1, None)):
+        blocks = case['blocks'][sl]
+        q0 = case['q0'] if any(b['q'] == case['q0'] for b in blocks) else blocks[0]['q']
+        parts.append(hk.Built(dict(blocks=blocks, v=case['v'][sl], q0=q0, ds=case.get('ds', 1)), rep.variant))
+    cplx = not all(p.real for p in parts) or not B.real
+
+    def lv(x):
+        return [parts[0].vec(x[:n1], dtype=np.complex128 if cplx else None), parts[1].vec(x[n1:], dtype=np.complex128 if cplx else None)]
+
+    def flat(lst):
+        return np.concatenate([hk.Built.arr(a) for a in lst])
+    run = case['runs'][-1]
+    for nc in (2, None):
+        opts = dict(N_min=2, N_max=max(2, run['Nmax']), cutoff=1.0e-10, P_tol=0.0)
+        N_exp = min(opts['N_max'], case['mE'])
+        if nc is not None:
+            opts['N_cache'] = nc
+        if sigma:
+            opts['E_shift'] = sigma
+        H = ListOp([p.op() for p in parts])
+        if ovs:
+            H = sparse.OrthogonalNpcLinearOperator(H, [lv(o) for o in ovs])
+        psi0 = lv(B.v)
+        before = flat(psi0).copy()
+        classes = dict(listvec=True, ncache=cls_nc(nc), shift=bool(sigma), northo=len(ovs))
+        with warnings.catch_warnings():
+            warnings.simplefilter('ignore')
+            E, psi, N = kb.LanczosGroundState(H, psi0, dict(opts)).run()
+        rep.count('LanczosGroundState', ('listvec', cls_nc(nc)))
+        x = flat(psi)
+        det = dict(options=opts, E=float(np.real(E)), N=int(N), psi=[[float(c.real), float(c.imag)] for c in x])
+        if not np.array_equal(flat(psi0), before):
+            rep.fail('LanczosGroundState', 'start-vector-modified', classes, det)
+        if int(N) != N_exp:
+            rep.fail('LanczosGroundState', 'N', classes, dict(det, expected=N_exp))
+            continue
+        if abs(np.linalg.norm(x) - 1.0) > TOL or abs(np.vdot(x, Aeff @ x).real - sigma - E) > tol:
+            rep.fail('LanczosGroundState', 'rayleigh', classes, det)
+        elif N_exp == case['mE'] and (abs(E - case['Eex']) > tol or parallel_defect(x, gvec) > TOL):
+            rep.fail('LanczosGroundState', 'E-at-exhaustion', classes, dict(det, expected=case['Eex']))
+
+
 def replay_lanczos(rep, light=False, traces=None):
     from tenpy.linalg import krylov_based as kb, sparse
     case = rep.case
@@ -192,8 +251,23 @@ def replay_lanczos(rep, light=False, traces=None):
                 return e
             evs, out = hk.record(mk, (), m=case['mE'])
             traces.append((evs, dict(origin=rep.origin, variant=rep.variant, options=opts, engine='LanczosGroundState')))
+    if len(case['blocks']) >= 2 and not (light and rep.variant % 2):
+        lanczos_listvec(rep, B, ovs, sigma, Aeff, gvec, tol)
     if ovs or sigma:
         return
+    if B.real:
+        # integer dtype start vector (the planted vectors are integers)
+        run = case['runs'][-1]
+        opts = dict(N_min=2, N_max=max(run['Nmax'], 2), cutoff=1.0e-10, P_tol=0.0)
+        rep.count('LanczosGroundState', 'int-dtype')
+        try:
+            with warnings.catch_warnings():
+                warnings.simplefilter('ignore')
+                E, psi, N = kb.LanczosGroundState(B.op(), B.vec(dtype=np.int64), dict(opts)).run()
+            if int(N) != min(max(run['Nmax'], 2), case['mE']) or abs(E - Eex) > tol or parallel_defect(B.arr(psi), gvec) > TOL:
+                rep.fail('LanczosGroundState', 'integer-start-vector', dict(exc='none'), dict(options=opts, E=float(E), N=int(N)))
+        except (ValueError, TypeError) as e:
+            rep.fail('LanczosGroundState', 'integer-start-vector', dict(exc=type(e).__name__), dict(options=opts, exc=repr(e)))
     Av = sum((hk.gi(c['lam']) * hk.bv_flat(c['c']) for c in case['comps']), np.zeros(dim, dtype=complex))
     # ---- laws of the operator wrappers, on exact data: (A + shift) v and (A1 + A2) v are exact in floating point
     shift = 3 - 5 * (rep.variant % 2)
@@ -218,6 +292,43 @@ def replay_lanczos(rep, light=False, traces=None):
         rep.count('OrthogonalNpcLinearOperator', 0)
         if rel(yo - Po @ A @ Po @ v) > tol * max(1.0, float(np.linalg.norm(v))):
             rep.fail('OrthogonalNpcLinearOperator', 'matvec', dict(), dict(got=str(yo), expected=str(Po @ A @ Po @ v)))
+    # ---- to_matrix() of the wrappers and BoostNpcLinearOperator, around an operator that can be contracted to a matrix
+    class MatOp:
+        def __init__(self, arr):
+            self.arr, self.dtype = arr, arr.dtype
+
+        def matvec(self, vec):
+            return self.arr.matvec(vec)
+
+        def to_matrix(self):
+            return self.arr
+
+    def tm(op):
+        return np.asarray(op.to_matrix().to_ndarray(), dtype=complex)
+    laws = [('ShiftNpcLinearOperator', lambda: sparse.ShiftNpcLinearOperator(MatOp(B.op()), shift), A + shift * np.eye(dim), 0.0),
+            ('SumNpcLinearOperator', lambda: sparse.SumNpcLinearOperator(MatOp(B.op(A - dg)), MatOp(B.op(dg))), A, 0.0)]
+    if len(case['comps']) >= 2:
+        o = hk.bv_flat(case['comps'][0]['c']) + 2 * hk.bv_flat(case['comps'][1]['c'])      # integer vector, no eigenvector
+        Po = np.eye(dim, dtype=complex) - np.outer(o, o.conj()) / np.vdot(o, o).real
+        laws.append(('OrthogonalNpcLinearOperator', lambda: sparse.OrthogonalNpcLinearOperator(MatOp(B.op()), [B.vec(o)]),
+                     Po @ A @ Po, tol))
+        laws.append(('BoostNpcLinearOperator', lambda: sparse.BoostNpcLinearOperator(MatOp(B.op()), [2], [B.vec(o)]),
+                     A + 2 * np.outer(o, o.conj()), 0.0))
+    for name, mk, expect, tl in laws:
+        rep.count(name, 'to_matrix')
+        try:
+            with warnings.catch_warnings():
+                warnings.simplefilter('ignore')
+                op = mk()
+                got = tm(op)
+                ymv = B.arr(op.matvec(B.vec()))
+        except (AttributeError, NotImplementedError, ValueError) as e:
+            rep.fail(name, 'to_matrix', dict(exc=type(e).__name__), dict(exc=repr(e)))
+            continue
+        if rel(got - expect) > tl:
+            rep.fail(name, 'to_matrix', dict(exc='none'), dict(got=str(got), expected=str(expect)))
+        if rel(ymv - expect @ v) > (tl * max(1.0, float(np.linalg.norm(v))) if tl else 0.0):
+            rep.fail(name, 'matvec', dict(), dict(got=str(ymv), expected=str(expect @ v)))
     # ---- FlatLinearOperator: exact action on the sector
     psi0 = B.vec()
     for cf in (None, False):
@@ -381,10 +492,24 @@ def replay_arnoldi(rep, light=False):
                 psi0 = B.vec()
                 with warnings.catch_warnings():
                     warnings.simplefilter('ignore')
-                    Es, psis, N = kb.Arnoldi(B.op(), psi0, dict(opts)).run()
+                    eng = kb.Arnoldi(B.op(), psi0, dict(opts))
+                    Es, psis, N = eng.run()
                 rep.count('Arnoldi', (run['Nmax'], which, numev))
                 Es = np.asarray(Es, dtype=complex)
                 det = dict(options=opts, Es=[[float(e.real), float(e.imag)] for e in Es], N=int(N))
+                if numev == 1:
+                    # run() takes no argument: calling it again on the same engine has to return the same data
+                    rep.count('Arnoldi', (run['Nmax'], which, 'rerun'))
+                    try:
+                        with warnings.catch_warnings():
+                            warnings.simplefilter('ignore')
+                            Es2, psis2, N2 = eng.run()
+                        if int(N2) != int(N) or rel(np.asarray(Es2, dtype=complex) - Es) > tol:
+                            rep.fail('Arnoldi', 'second-run', dict(classes, reused=True),
+                                     dict(det, Es_second=[[float(e.real), float(e.imag)] for e in np.asarray(Es2, dtype=complex)],
+                                          N_second=int(N2)))
+                    except AssertionError as e:
+                        rep.fail('Arnoldi', 'second-run', dict(classes, reused=True), dict(det, exc=repr(e)))
 
                 def bad(clause, **more):
                     d = dict(det)
@@ -443,6 +568,18 @@ def replay_gmres(rep, light=False):
     xs = B.v
     mg = case['mg']
     nb = float(np.linalg.norm(b))
+    # b = 0: the solution of the (regular) system is x = 0 whatever the initial guess; nothing may become inf / nan
+    if not light or rep.variant % 4 == 0:
+        opts = dict(N_max=dim + 2, N_min=0, res=1.0e-11)
+        with warnings.catch_warnings():
+            warnings.simplefilter('ignore')
+            x, res, tot_err, tot_it = kb.GMRES(B.op(), B.vec(xs, dtype=np.complex128), B.vec(np.zeros(dim), dtype=np.complex128),
+                                              dict(opts)).run()
+        rep.count('GMRES', 'b-zero')
+        xa = B.arr(x)
+        if not (np.all(np.isfinite(xa)) and np.isfinite(res)) or rel(A @ xa) > TOL * B.scale * max(1.0, float(np.linalg.norm(xs))):
+            rep.fail('GMRES', 'zero-right-hand-side', dict(herm=case['fl'] == 'herm'),
+                     dict(options=opts, reported=str(res), x=[[float(c.real), float(c.imag)] for c in xa]))
     # option values with N_min <= N_max (N_min defaults to 5)
     for nmin, nmax in ((0, mg), (0, mg + 2), (None, max(mg + 2, 6)), (0, mg - 1)):
         if True:
@@ -546,6 +683,53 @@ def replay_gmresill(rep, light=False):
 
 
 # ------------------------------------------------------------------------------------------------
+# ArnoldiEvolution on defective operators (Jordan blocks)
+# ------------------------------------------------------------------------------------------------
+def replay_jevo(rep, light=False):
+    from tenpy.linalg import krylov_based as kb
+    case = rep.case
+    B = hk.Built(case, rep.variant)
+    A, dim = B.A, B.dim
+    sigma = case['sigma']
+    jor = [(J['lam'], [hk.bv_flat(w) for w in J['w']]) for J in case['jor']]
+    defective = any(len(ws) > 1 for _, ws in jor)
+    nv = float(np.linalg.norm(B.v))
+    lam_max = max(abs(l + sigma) for l, _ in jor)
+    deltas = [('iq', 1, 1j * math.pi / 2), ('gen', 0, GEN_DELTAS[0]), ('gen', 1, GEN_DELTAS[1])]
+    for run in case['runs']:
+        if light and run['Nmax'] not in (case['runs'][-1]['Nmax'], case['runs'][rep.variant % len(case['runs'])]['Nmax']):
+            continue
+        opts = dict(N_min=2, N_max=run['Nmax'], cutoff=1.0e-10, P_tol=0.0)
+        if sigma:
+            opts['E_shift'] = sigma
+        for dk, t, delta in (deltas[rep.variant % 3:][:1] if light else deltas):
+            classes = dict(engine='ArnoldiEvolution', defective=defective, exhausted=run['exhausted'], shift=bool(sigma), delta=dk)
+            rep.count('ArnoldiEvolution', ('jordan', run['Nmax'], dk, t))
+            try:
+                with warnings.catch_warnings():
+                    warnings.simplefilter('ignore')
+                    res, N = kb.ArnoldiEvolution(B.op(), B.vec(), dict(opts)).run(delta, normalize=False)
+            except np.linalg.LinAlgError as e:
+                rep.fail('ArnoldiEvolution', 'exception', classes, dict(options=opts, delta=[delta.real, delta.imag], exc=repr(e)))
+                continue
+            x = B.arr(res)
+            det = dict(options=opts, delta=[delta.real, delta.imag], N=int(N), res=[[float(c.real), float(c.imag)] for c in x])
+            if int(N) != run['N']:
+                rep.fail('ArnoldiEvolution', 'N', classes, dict(det, expected=run['N']))
+                continue
+            if run['exhausted']:
+                # exp(delta (A + sigma)) v = sum_b e^(delta (lam_b + sigma)) sum_k delta^k / k! (A - lam_b)^k v_b
+                exp = np.zeros(dim, dtype=complex)
+                for lam, ws in jor:
+                    for kk, wv in enumerate(ws):
+                        exp += np.exp(delta * (lam + sigma)) * delta ** kk / math.factorial(kk) * wv
+                scale = B.scale * max(1.0, nv) * math.exp(max(0.0, delta.real) * lam_max)
+                if not np.all(np.isfinite(x)) or rel(x - exp) > TOL * scale * 10:
+                    rep.fail('ArnoldiEvolution', 'exp-at-exhaustion', classes,
+                             dict(det, expected=[[float(c.real), float(c.imag)] for c in exp], err=rel(x - exp)))
+
+
+# ------------------------------------------------------------------------------------------------
 # gram_schmidt
 # ------------------------------------------------------------------------------------------------
 def replay_gs(rep, light=False):
@@ -579,7 +763,7 @@ def replay_gs(rep, light=False):
 
 
 REPLAY = dict(lanczos=replay_lanczos, evo=replay_evo, arnoldi=replay_arnoldi, gmres=replay_gmres, gs=replay_gs,
-              gmresill=replay_gmresill)
+              gmresill=replay_gmresill, jevo=replay_jevo)
 
 
 def replay_case(ctx, case, origin, variant, light, traces):
@@ -609,7 +793,7 @@ def replay_case(ctx, case, origin, variant, light, traces):
 # stages
 # ------------------------------------------------------------------------------------------------
 KINDS = ('lanczos', 'evo', 'arnoldi', 'gmres', 'gs')        # kinds of the random catalogue
-ALL_KINDS = KINDS + ('gmresill',)
+ALL_KINDS = KINDS + ('gmresill', 'jevo')
 
 
 def run_control_flow(tier):
@@ -639,6 +823,11 @@ ILL = ('ill', dict(Kinds={'gmresill'}, Flavours={'herm'}, Charges={0}, Sizes={4}
                    UnitKinds={'one', 'gau'}, AVals='<-AValsOne', DMode='dyadic'))
 
 
+# defective operators: direct sums of Jordan blocks S (lam + N) S^-1
+JORDAN = ('jordan', dict(Kinds={'jevo'}, Flavours={'jor'}, Charges={0}, Sizes={2, 3}, MaxBlocks=2, MaxDim=4, Perms={'id'},
+                         UnitKinds={'gau'}, AVals='<-AValsBin', DVals='<-DValsTwo'))
+
+
 def mc_cfgs(tier):
     """small catalogues, exhaustive"""
     if tier == 'quick':
@@ -646,14 +835,14 @@ def mc_cfgs(tier):
                               MaxBlocks=2, MaxDim=2, Sigmas='<-SigmasPM')),       # E_shift absent, > 0, < 0
                 ('gen', dict(Kinds={'evo', 'arnoldi', 'gmres', 'gs'}, Flavours={'gen'}, Charges={0}, Sizes={1, 2},
                              MaxBlocks=1, MaxDim=2, MaxGsRows=2)),
-                LADDER, ILL]
+                LADDER, ILL, JORDAN]
     return [('herm', dict(Kinds={'lanczos', 'evo', 'arnoldi', 'gmres'}, Flavours={'herm'}, Charges={0, 1}, Sizes={1, 2},
                           MaxBlocks=2, MaxDim=2, Perms={'id', 'cyc'}, UnitKinds={'gau', 'alt'}, Sigmas='<-SigmasPM')),
             ('gen', dict(Kinds={'evo', 'arnoldi', 'gmres', 'gs'}, Flavours={'gen'}, Charges={0, 1}, Sizes={1, 2},
                          MaxBlocks=2, MaxDim=2, MaxGsRows=2)),
             ('herm3', dict(Kinds={'lanczos', 'evo'}, Flavours={'herm'}, Charges={0}, Sizes={3}, MaxBlocks=1, MaxDim=3,
                            Perms={'cyc'}, UnitKinds={'gau'}, AVals='<-AValsSmall')),
-            LADDER, ILL]
+            LADDER, ILL, JORDAN]
 
 
 SIM_BIG = dict(Sizes={1, 2, 3, 4}, Charges={0, 1, 2}, MaxBlocks=4, MaxDim=12, DVals='<-DValsBig', GVals='<-GValsBig',
@@ -795,6 +984,7 @@ def canary(ctx, cases, traces, accepted):
 
 
 def check(ctx):
+    logging.getLogger('tenpy').setLevel(logging.ERROR)       # 'poorly conditioned H' warnings of known findings
     ctx.rule = ('a case = one solver invocation on one TLC-generated planted case (operator x start vector x options x '
                 'N_max x N_cache x reortho ...) or one TLC-validated recorded Lanczos run; distinct = distinct (case origin, '
                 'leg variant, solver, options); cases come from the state-cover dump of the exhaustive runs and from -simulate')
@@ -856,7 +1046,7 @@ def check(ctx):
                 'BReortho', 'BBeta', 'BBreak', 'BNext', 'RUnshift', 'RReturn1', 'RMul', 'RCached', 'RClear', 'QCache', 'QMatvec', 'QAlpha',
                 'QReortho', 'QBeta', 'QScale', 'QAdd', 'RNorm', 'RReturn']
         need += ['Tr' + a for a in need[13:]] + ['TrStart', 'TrAccept']
-        need.append('DoOptGmresIll')
+        need += ['DoOptGmresIll', 'DoOptJevo', 'DoBuildJ']
         never = [a for a in need if ctx.coverage_actions.get(a, (0, 0))[1] == 0]
         ctx.notes['actions_never_taken'] = never
         if never and not ctx.violations:
